@@ -9,6 +9,12 @@ ROOT = os.path.dirname(os.path.dirname(os.path.abspath(__file__)))
 REPO = os.environ.get("VERIF_REPO", "/repo")
 ENV = dict(os.environ, GOFLAGS="-mod=mod", GOPROXY="off", GOSUMDB="off", GOTOOLCHAIN="local", CGO_ENABLED="0")
 
+def rewrite_cbreaker(src):
+    """package cbreaker calls the queue and the adders through atomic wrappers"""
+    src = src.replace('"go.linecorp.com/garr/adder"', '"go.linecorp.com/garr/vshim/vadder"')
+    src = src.replace('"go.linecorp.com/garr/queue"', '"go.linecorp.com/garr/vshim/vqueue"')
+    return src
+
 def rewrite(src):
     src = re.sub(r'(?m)^(\s*)"sync/atomic"', r'\1atomic "go.linecorp.com/garr/vshim/vatomic"', src)
     src = re.sub(r'(?m)^(\s*)"sync"', r'\1sync "go.linecorp.com/garr/vshim/vsync"', src)
@@ -32,9 +38,12 @@ def main(dst):
                 continue
             src = open(os.path.join(dp, f)).read()
             out = os.path.normpath(os.path.join(dst, rel, f))
-            write_if_changed(out, rewrite(src))
+            src = rewrite(src)
+            if rel == "circuit-breaker":
+                src = rewrite_cbreaker(src)
+            write_if_changed(out, src)
             keep.add(out)
-    for name in ("vsched", "vatomic", "vsync", "vdrv"):
+    for name in ("vsched", "vatomic", "vsync", "vdrv", "vqueue", "vadder"):
         for f in os.listdir(os.path.join(ROOT, "shim", name)):
             out = os.path.join(dst, "vshim", name, f)
             write_if_changed(out, open(os.path.join(ROOT, "shim", name, f)).read())
